@@ -11,6 +11,8 @@ C08-T3 / C09-T9 on the executable loop model `Opda.TrapLoop` read at `ℝ` (`nat
 * mirror image: `g'(x) = −g(−x)` on the grid ⇒ `T'_i = −T_i` on the mirrored interval;
 * affine image: `g(A + B z) = g₀(z)` ⇒ `T_i[g; A+B·lo, A+B·hi] = B·T_i[g₀; lo, hi]`;
 * subtracting a constant on `[lo,hi]` subtracts `K·(hi−lo)` (the rule is exact for constants).
+
+`valueRep` is the code (after 867c66b); `valueCur` is the pre-repair integrand with `1[y>0]` (legacy).
 -/
 namespace Opda.TrapLoop
 open Finset Opda.Trap
@@ -143,6 +145,22 @@ theorem trap_sub_const (g g' : ℝ → ℝ) (K lo hi : ℝ) (hlh : lo ≤ hi) (i
   rw [← h_mul_pow lo hi i]
   ring
 
+/-- the rule is exact for constants (global form): `T_i[g − K] = T_i[g] − K (hi − lo)` -/
+theorem trap_sub_const_all (g : ℝ → ℝ) (K lo hi : ℝ) (i : ℕ) :
+    Trap.trap (fun x => g x - K) lo hi i = Trap.trap g lo hi i - K * (hi - lo) := by
+  rw [trap_eq_full, trap_eq_full]
+  unfold full
+  rw [sum_sub_distrib, sum_const, card_range, nsmul_eq_mul]
+  push_cast
+  rw [← h_mul_pow lo hi i]
+  ring
+
+/-- the trapezoid sum of the zero function -/
+theorem trap_zero (g : ℝ → ℝ) (lo hi : ℝ) (i : ℕ)
+    (hg : ∀ k : ℕ, k ≤ 2^i → g (lo + k * Trap.h lo hi i) = 0) : Trap.trap g lo hi i = 0 := by
+  rw [trap_congr_grid g (fun _ => 0) lo hi i (fun k hk => by rw [hg k hk]), trap_eq_full]
+  unfold full; simp
+
 /-! ### C09-T9: the integrated curve under reflection and under the affine map -/
 
 theorem ind_neg (x : ℝ) (hx : x ≠ 0) : ind cast (-x) = 1 - ind cast x := by
@@ -176,7 +194,24 @@ theorem valueCur_reflect (pw : ℝ → ℝ → ℝ) (F F' : ℝ → ℝ) (hFF : 
     rw [hFF, ind_neg _ (h0 k hk)]
     cases m <;> simp [cast] <;> ring
 
-/-- **affine equivariance** of the integrand without `1[y>0]` (the proposed repair), at every level -/
+/-- **reflection of the code's integrated curve** (`lo + T_i[1 − Fⁿ]` resp. `lo + T_i[(1−F)ⁿ]`): the value for
+`D'` (level `¬m`, cdf `F'(−x) = 1 − F(x)`) on the mirrored range is minus the value for `D`, at *every*
+refinement level and with no side condition (the pre-repair integrand needed "no grid point is exactly 0") -/
+theorem valueRep_reflect (pw : ℝ → ℝ → ℝ) (F F' : ℝ → ℝ) (hFF : ∀ x, F' (-x) = 1 - F x) (m : Bool)
+    (nn lo hi : ℝ) (i : ℕ) :
+    valueRep cast pw F' (!m) nn (-hi) (-lo) i = - valueRep cast pw F m nn lo hi i := by
+  unfold valueRep
+  rw [iter_eq_trap, iter_eq_trap,
+    trap_reflect (fun x => gRep cast pw F m nn x - 1) (gRep cast pw F' (!m) nn) lo hi i, trap_sub_const_all]
+  · ring
+  · intro k hk
+    have e : -hi + (k:ℝ) * Trap.h lo hi i = -(hi - k * Trap.h lo hi i) := by ring
+    rw [e]
+    unfold gRep
+    rw [hFF]
+    cases m <;> simp [cast]
+
+/-- **affine equivariance** of the code's integrated curve, at every level -/
 theorem valueRep_affine (pw : ℝ → ℝ → ℝ) (F F0 : ℝ → ℝ) (A B : ℝ) (hF : ∀ z, F (A + B * z) = F0 z) (m : Bool)
     (nn lo hi : ℝ) (i : ℕ) :
     valueRep cast pw F m nn (A + B * lo) (A + B * hi) i = A + B * valueRep cast pw F0 m nn lo hi i := by
